@@ -28,7 +28,7 @@
 from __future__ import annotations
 
 from dataclasses import dataclass, field
-from ttconv.config import ModuleConfiguration
+from ttconv.config import ModuleConfiguration, parse_bool
 
 @dataclass
 class VTTWriterConfiguration(ModuleConfiguration):
@@ -39,10 +39,10 @@ class VTTWriterConfiguration(ModuleConfiguration):
     return "vtt_writer"
 
   # outputs `line` and `line alignment` cue settings
-  line_position: bool = field(default=False, metadata={"decoder": bool})
+  line_position: bool = field(default=False, metadata={"decoder": parse_bool})
 
   # outputs `text alignment` cue settings
-  text_align: bool = field(default=False, metadata={"decoder": bool})
+  text_align: bool = field(default=False, metadata={"decoder": parse_bool})
 
   # outputs cue identifier
-  cue_id: bool = field(default=True, metadata={"decoder": bool})
+  cue_id: bool = field(default=True, metadata={"decoder": parse_bool})
